@@ -623,9 +623,9 @@ Proof. intros E1 E2. exists []. rewrite E1, E2. repeat split. Qed.
 
 Lemma op_has_form maxsz lv op :
   0 < maxsz -> good maxsz lv -> valid_op op ->
-  existsb is_ftruncate (op_muts repaired maxsz lv op) = false -> op_form maxsz lv op.
+  (forall k, op = OTruncate k -> existsb is_ftruncate (op_muts repaired maxsz lv op) = false) -> op_form maxsz lv op.
 Proof.
-  intros Hm [->|(l & s0 & gs & Hl & Hinv)] Hvo Hnf.
+  intros Hm [->|(l & s0 & gs & Hl & Hinv)] Hvo Hnf0.
   - (* before the log exists *)
     destruct op as [recs|k|k|]; try (apply op_form_nil; reflexivity).
     exists [BCreate 0]. unfold op_muts, step_live, op_run. cbn [lv_log lv_fs lv_acked]. rewrite open_log_empty_dir.
@@ -682,7 +682,8 @@ Proof.
           rewrite Hids. reflexivity. }
         apply op_form_nil; unfold op_muts, step_live, op_run; cbn [lv_log lv_fs lv_acked]; rewrite E; reflexivity.
     + (* Truncate that does not cut inside a file *)
-      destruct (truncate_step maxsz l d acked s0 gs k Hinv) as (l' & T & Estep & _ & HT & HT0).
+      pose proof (Hnf0 k eq_refl) as Hnf.
+      destruct (truncate_step maxsz l d acked s0 gs k Hinv) as (l' & T & Estep & _ & HT & HT0 & _).
       unfold op_form, op_muts, step_live, op_run in *. cbn [lv_log lv_fs lv_acked] in *. rewrite Estep in *. cbn [snd lv_fs] in *.
       destruct HT as [-> | ->].
       2:{ rewrite existsb_app in Hnf. cbn in Hnf. rewrite orb_true_r in Hnf. discriminate Hnf. }
@@ -850,7 +851,7 @@ Proof.
   induction ops as [|op ops IH]; intros lv P Hm Hg Hc Hv Hvo Hnf; [cbn [fold_left scenario_pfs]; split; [exact Hg|split; [exact Hc|exact Hv]]|].
   inversion Hvo as [|? ? Ho Hrest]; subst. destruct Hnf as [Hn1 Hn2].
   cbn [fold_left scenario_pfs].
-  destruct (op_has_form maxsz lv op Hm Hg Ho Hn1) as (bs & Ems & Hok & Happ).
+  destruct (op_has_form maxsz lv op Hm Hg Ho (fun _ _ => Hn1)) as (bs & Ems & Hok & Happ).
   destruct (pl_blocks bs P (lv_fs lv) Hc Hv Hok) as (_ & Hc' & Hv').
   rewrite <- Ems in Hc', Hv'. rewrite Happ in Hv'.
   apply IH; try assumption. apply step_good_all; assumption.
@@ -885,7 +886,7 @@ Proof.
   set (lv := run_ops repaired maxsz (firstn i ops)) in *.
   set (P := scenario_pfs repaired maxsz (mkLive None [] []) (pclean_of []) (firstn i ops)) in *.
   assert (Hvo : valid_op op) by (rewrite Forall_forall in Hv; apply Hv; eapply nth_error_In; eassumption).
-  destruct (op_has_form maxsz lv op Hm Hg Hvo Hnf2) as (bs & Ems & Hok & _).
+  destruct (op_has_form maxsz lv op Hm Hg Hvo (fun _ _ => Hnf2)) as (bs & Ems & Hok & _).
   destruct (pl_blocks bs P (lv_fs lv) Hc Hvol Hok) as (Hst & _ & _).
   rewrite <- Ems in Hst.
   intros Hj d' Hcc.
